@@ -513,6 +513,13 @@ class Program:
                         t = self.type_of(n.value, env, f)
                         if t and t != "None":
                             env.setdefault(n.targets[0].id, t)
+                    elif isinstance(n.targets[0], (ast.Tuple, ast.List)) and isinstance(n.value, (ast.Tuple, ast.List)) and len(n.targets[0].elts) == len(n.value.elts):
+                        # a, b = x, y
+                        for tg, vl in zip(n.targets[0].elts, n.value.elts, strict=True):
+                            if isinstance(tg, ast.Name):
+                                t = self.type_of(vl, env, f)
+                                if t and t != "None":
+                                    env.setdefault(tg.id, t)
                 elif isinstance(n, ast.NamedExpr) and isinstance(n.target, ast.Name):
                     t = self.type_of(n.value, env, f)
                     if t and t != "None":
